@@ -9,6 +9,7 @@ import GrogModel.Lemmas.WalkerLive
 import GrogModel.Lemmas.WalkerMeasure
 import GrogModel.Lemmas.WalkerExamples
 import GrogModel.Lemmas.ErrChan
+import GrogModel.Lemmas.Pool
 namespace Grog.C04
 open Grog.Walker
 
@@ -85,13 +86,59 @@ theorem failure_always_completes {c : Cfg} {s s' : State} {n : Node}
     (h : step c s (.cbReturn n .fail) = some s') :
     ∃ s'', step c s' (.complete n) = some s'' ∧ s''.phase n = .failed := by
   obtain ⟨hsel, _, hr⟩ := step_cbReturn.mp h
-  rcases hr with ⟨hk, _⟩ | ⟨_, rfl⟩ | ⟨hk, _⟩
+  rcases hr with ⟨hk, _⟩ | ⟨_, rfl⟩ | ⟨hk, _⟩ | ⟨hk, _⟩
   · cases hk
   · refine ⟨completeFail c _ n, step_complete.mpr ⟨hsel, Or.inr ⟨by simp [Walker.set], rfl⟩⟩, ?_⟩
     simp [Walker.set]
   · cases hk
+  · cases hk
 
 example : (step (Ex.chain2 false) (Ex.after (Ex.chain2 false) [.wake 0]) (.cbReturn 0 .fail)).isSome = true := by decide
+
+/-- A callback error that wraps `context.Canceled` while the walk context is alive (a context of the callback's own: a cache
+    client, a tool) is an ordinary failure: the node gets its `onComplete` and ends `failed`, so its dependants are
+    cancelled (keep-going) or everything is (fail-fast). No hypothesis on the callbacks is needed for deadlock freedom. -/
+theorem spurious_cancel_is_a_failure {c : Cfg} {s s' : State} {n : Node} (hc : s.ctx = false)
+    (h : step c s (.cbReturn n .cancelled) = some s') :
+    s'.phase n = .returned false ∧ ∃ s'', step c s' (.complete n) = some s'' ∧ s''.phase n = .failed := by
+  obtain ⟨hsel, _, hr⟩ := step_cbReturn.mp h
+  rcases hr with ⟨hk, _⟩ | ⟨hk, _⟩ | ⟨_, hc', _⟩ | ⟨_, _, rfl⟩
+  · cases hk
+  · cases hk
+  · rw [hc] at hc'; cases hc'
+  · refine ⟨by simp [Walker.set], completeFail c _ n, step_complete.mpr ⟨hsel, Or.inr ⟨by simp [Walker.set], rfl⟩⟩, ?_⟩
+    simp [Walker.set]
+
+example : (step (Ex.chain2 false) (Ex.after (Ex.chain2 false) [.wake 0]) (.cbReturn 0 .cancelled)).isSome = true ∧
+    (Ex.after (Ex.chain2 false) [.wake 0]).ctx = false := by decide
+
+/-- Regression witness (walker before d5650b9, reported by the check as `walker-hang` when a failing callback returns an error
+    wrapping context.Canceled under a live context): node 0 is left `aborted` without a completion, node 1 stays parked with
+    neither a ready nor a cancel message, the context is not cancelled: no event of the walker is enabled and `Walk` has not
+    returned — it waits forever. With the repaired rule the same callback error leads to a final state. -/
+theorem spurious_cancel_hang_witness_old :
+    let c := Ex.chain2 false
+    let s := cbReturnCancelledOld (Ex.after c [.wake 0]) 0
+    quiescentB c s = true ∧ s.retErr = none ∧ s.phase 1 = .parked ∧ s.ctx = false ∧
+    ((run c (init c) [.wake 0, .cbReturn 0 .cancelled, .complete 0, .exit 1, .walkReturn false]).map
+        (fun s => (s.phase 0, s.phase 1, s.retErr.isSome))) = some (.failed, .exited, true) := by
+  decide
+
+/-- With a cancelled context: when `Walk` returns through the wait group every selected node is completed (`ok` / `failed`),
+    skipped (`exited`) or interrupted (`aborted`, only under a cancelled context), and the returned map is the snapshot. -/
+theorem completions_cover_cancelled {c : Cfg} {s s' : State} (ok : CfgOK c) (h : Reach c s)
+    (hr : step c s (.walkReturn false) = some s') :
+    (∀ n, n ∈ c.sel → s.phase n = .ok ∨ s.phase n = .failed ∨ s.phase n = .exited ∨ (s.phase n = .aborted ∧ s.ctx = true)) ∧
+    s'.snap = s.phase := by
+  have inv := reach_inv ok h
+  obtain ⟨_, hh⟩ := step_walkReturn.mp hr
+  rcases hh with ⟨hb, _⟩ | ⟨_, hall, rfl⟩
+  · simp at hb
+  · refine ⟨?_, rfl⟩
+    intro n hn
+    have ht := allTerminal_iff.mp hall n hn
+    cases hp : s.phase n <;> simp_all [Phase.terminal]
+    exact inv.abortedCtx n hp
 
 /-- When `Walk` returns through the wait group without cancellation, every selected node is in the
     completion map (`ok` / `failed`) or was skipped (`exited`) below a failed transitive dependency;
@@ -177,5 +224,34 @@ theorem lost_wakeup_witness :
         [.register 0, .wake 0, .finishOk 0, .register 1]).map
       (fun s => (WalkerOld.stuck (Ex.chain2 false) s, s.phase 1, s.reg 1))
     = some (true, .parked, true) := by decide
+
+/-- "Entered callbacks return" — the pool half: while the pool's context is alive (no interrupt), in every reachable state of
+    the pool model with at least one worker a job waiting in the channel never waits in vain: a worker can take it, or a busy
+    worker can end its command / finish its task (and thereby free a slot). Together with `Pool.measure`-free reasoning this is
+    deadlock freedom of `TaskWorkerPool.Run` for an uncancelled build; commands are assumed to end (timeouts, C14). -/
+theorem pool_no_deadlock {w : Nat} {s : Pool.State} (h : Pool.Reach w s) (hw : 0 < w) (hp : s.poolCtx = false)
+    (hq : s.queue ≠ []) :
+    ∃ i, (Pool.step s (.take i)).isSome = true ∨ (Pool.step s (.cmdEnd i)).isSome = true ∨ (Pool.step s (.done i)).isSome = true :=
+  Pool.pool_progress h hw hp hq
+
+example : ∃ s, Pool.Reach 1 s ∧ s.queue = [8] ∧ s.poolCtx = false := by
+  have h0 : Pool.Reach 1 (Pool.init 1) := Pool.Reach.init
+  have h1 := Pool.Reach.step h0 (e := .enqueue 7) (s' := _) rfl
+  have h2 := Pool.Reach.step h1 (e := .take 0) (s' := _) rfl
+  have h3 := Pool.Reach.step h2 (e := .enqueue 8) (s' := _) rfl
+  exact ⟨_, h3, rfl, rfl⟩
+
+/-- …and what the interrupt does to that guarantee (the reason the walker must not wait for callbacks after a cancellation):
+    one worker; job 7 is running, job 8 waits in the channel; the pool context is cancelled; the worker finishes job 7 and
+    leaves through `ctx.Done()`. Job 8 is stranded: no pool event can ever serve it, its `Run` call never returns.
+    `Walk` returns nevertheless (`C18.walk_returns`), which is why grog exits. -/
+theorem pool_stranded_witness :
+    (Pool.step (Pool.init 1) (.enqueue 7)).bind (fun s => (Pool.step s (.take 0)).bind (fun s => (Pool.step s (.enqueue 8)).bind
+      (fun s => (Pool.step s .poolCancel).bind (fun s => (Pool.step s (.done 0)).bind (fun s => Pool.step s (.workerExit 0))))))
+    = some { workers := [.exited], queue := [8], closed := true, taskCtx := true, poolCtx := true, finished := [7] } ∧
+    ∀ i, Pool.step { workers := [.exited], queue := [8], closed := true, taskCtx := true, poolCtx := true, finished := [7] } (.take i) = none := by
+  refine ⟨by decide, ?_⟩
+  intro i
+  cases i <;> simp [Pool.step]
 
 end Grog.C04
